@@ -1504,6 +1504,15 @@ func r1215UntypedAttributes(c *an.Ctx, rule string) {
 							}
 						}
 					}
+				case *ast.ReturnStmt:
+					if x.Pos() < exec.Pos() {
+						return true
+					}
+					for _, r := range x.Results {
+						if an.ObjOf(info, an.Unparen(r)) == m.v {
+							at, what = x, "returned to the caller"
+						}
+					}
 				}
 				if at == nil {
 					return true
